@@ -117,6 +117,13 @@ CHECKS = {
         note="Trusts the dirty-closure model in vf/props/c11.py; getters are generated as pure functions of exactly their declared dependencies.",
         ref="DESIGN.md section 4, C11",
     ),
+    "C16": dict(
+        level="exploration",
+        technique="enumeration + property-based testing over class definitions: identity comparison of vars(cls) before/after decoration and first use of every helper; helper-name set vs an independent naming function",
+        text="Class definitions are enumerated (12 attribute sets incl. colliding singular/plural pairs x selection through annotations / attrs / attrs_typed / attrs_skip x lazy/eager x private attribute x init/repr/eq switches x user-defined __init__/__repr__/__eq__/__new__ x every expected helper name occupied as function / staticmethod / property / plain value) and combined at random by Hypothesis; after decoration, bootstrap and first use of every helper, everything the class body defined must be the identical object, the __spec_class_* backups must exist and work, exactly the documented helper names must have been added (independent naming function with hand-verified singular forms), private/skipped attributes get none, and colliding names either raise RuntimeError or resolve to distinct helpers that edit only their own attribute.",
+        note="Singular forms come from a hand-verified table for the naming pool (not from inflect); staticmethod wrapping of a restored user __new__ is treated as the same object.",
+        ref="DESIGN.md section 4, C16",
+    ),
 }
 
 NOT_YET = "check not built yet in this revision (see DESIGN.md section 9 for the order); nothing is claimed"
